@@ -73,7 +73,7 @@ func genHostileText(t *rapid.T, label string) (string, []string) {
 	var sb strings.Builder
 	var classes []string
 	for i := 0; i < n; i++ {
-		tok := alphabet[rapid.IntRange(0, len(alphabet)-1).Draw(t, label+".tok")]
+		tok := alphabet[gen.Uniform(t, label+".tok", len(alphabet))]
 		sb.WriteString(tok)
 		classes = append(classes, classOf(tok))
 	}
@@ -362,7 +362,7 @@ func TestHostileText(t *testing.T) {
 		}
 		n := rapid.IntRange(1, 4).Draw(t, "nsinks")
 		for i := 0; i < n; i++ {
-			k := sinkKinds[rapid.IntRange(0, len(sinkKinds)-1).Draw(t, "sink")]
+			k := sinkKinds[gen.Uniform(t, "sink", len(sinkKinds))]
 			txt, cl := genHostileText(t, "text")
 			c.Sinks[k] = sanitize(k, txt)
 			classes[k] = cl
